@@ -267,7 +267,14 @@ class DataPath:
         ):
             return DataPath(*self.parts, other)
         elif isinstance(other, DataPath):
-            return DataPath(*self.parts, *other.parts)
+            # the `DATUM_TYPE` and `MULTI_TYPE` of the final (right-hand) path still
+            # apply to the concatenated path:
+            return DataPath(
+                *self.parts,
+                *other.parts,
+                datum_type=other.DATUM_TYPE.value,
+                multi_type=other.MULTI_TYPE.value,
+            )
 
     def __rtruediv__(self, other):
         return self.__class__(other) / self
